@@ -1,6 +1,6 @@
 #!/bin/bash
 # usage: confirm_seed.sh <seed dir containing patch.diff, demo (*.rs and/or demo.diff), demo_cmd.txt> <name>
-# Confirms a seeded change in a scratch worktree of /repo HEAD:
+# Confirms a seeded change in a scratch worktree of /repo HEAD (or of the commit $SEED_BASE the seed was written against):
 #   suite passes with the change, demo fails with it, demo passes without it.
 # Writes <seed dir>/confirm.log and prints a one-line verdict. Removes the worktree afterwards.
 SD="$1"; NAME="$2"
@@ -8,7 +8,7 @@ WT=/tmp/wt-confirm-$NAME
 LOG="$SD/confirm.log"
 : > "$LOG"
 git -C /repo worktree remove --force "$WT" >/dev/null 2>&1
-git -C /repo worktree add -q --detach "$WT" HEAD || { echo "$NAME: cannot create worktree"; exit 2; }
+git -C /repo worktree add -q --detach "$WT" "${SEED_BASE:-HEAD}" || { echo "$NAME: cannot create worktree"; exit 2; }
 cd "$WT" || exit 2
 export CARGO_NET_OFFLINE=true
 apply_patch() {
